@@ -682,7 +682,7 @@ __strfd_card(
 			if (yd >= 0) {
 				res = ui999topstr(
 					buf, bsz, yd,
-					3 - (s.pad == DT_SPPAD_OMIT) << 1U,
+					3 - ((s.pad == DT_SPPAD_OMIT) << 1U),
 					padchar(s));
 			} else {
 				buf[res++] = '0';
@@ -694,12 +694,12 @@ __strfd_card(
 		case DT_YD:
 			res = ui999topstr(
 				buf, bsz, d->d,
-				3 - (s.pad == DT_SPPAD_OMIT) << 1U, padchar(s));
+				3 - ((s.pad == DT_SPPAD_OMIT) << 1U), padchar(s));
 			break;
 		case DT_YMCW:
 			res = ui999topstr(
 				buf, bsz, dt_conv_to_yd(that).d,
-				3 - (s.pad == DT_SPPAD_OMIT) << 1U, padchar(s));
+				3 - ((s.pad == DT_SPPAD_OMIT) << 1U), padchar(s));
 			break;
 		case DT_LDN:
 			res = snprintf(buf, bsz, "%u", that.ldn);
